@@ -397,13 +397,27 @@ impl<'de, R: Reader<'de>> Deserializer<R> {
 
             // get n to check trailing characters in later
             let repaired = cfg.utf8_lossy && self.parser.read.next_invalid_utf8() != usize::MAX;
+            // the parser works on its own copy of the text and unescapes strings inside it, so
+            // the position of an error has to be computed again from the input itself
             let (n, parsed_len) = if repaired {
                 // repr the invalid utf8, not need to care about the invalid UTF8 char in non-string
                 // parts, it will cause errors when parsing.
                 let repr = String::from_utf8_lossy(json);
-                (val.parse_with_padding(repr.as_bytes(), cfg)?, repr.len())
+                match val.parse_with_padding(repr.as_bytes(), cfg) {
+                    Ok(n) => (n, repr.len()),
+                    Err(err) => {
+                        let index = lossy_offset_to_origin(json, err.offset());
+                        return Err(Error::syntax(err.error_code(), json, index));
+                    }
+                }
             } else {
-                (val.parse_with_padding(json, cfg)?, json.len())
+                match val.parse_with_padding(json, cfg) {
+                    Ok(n) => (n, json.len()),
+                    Err(err) => {
+                        let index = err.offset();
+                        return Err(Error::syntax(err.error_code(), json, index));
+                    }
+                }
             };
             // a value that ends beyond the parsed text was completed by the parser's own padding
             // bytes (`"` would parse as "x"): the input itself is truncated
